@@ -125,6 +125,12 @@ class Scheme(BaseRenderer):
     def render_variable(self, token):
         return self.env[token.name]
 
+    def __enter__(self):
+        # __exit__ puts the default tokens back: an instance entered once more installs its own again
+        block_token._token_types = []
+        span_token._token_types = [Expr, Number, Variable, Whitespace]
+        return self
+
     def define(self, *args):
         if len(args) == 2:
             name_token, val_token = args
